@@ -306,6 +306,16 @@ def gen_worlds(ctx):
         w = dict(NOMINAL)
         w[a], w[b] = va, vb
         worlds.append((f"pair:{a}={va},{b}={vb}", w, None))
+    if not ctx.quick():
+        # thorough: every pair of single deviations
+        singles = [(f, v) for f in FIELDS for v in DOMAIN.get(f, [0, 1]) if v != NOMINAL[f]]
+        for i, (a, va) in enumerate(singles):
+            for b, vb in singles[i + 1:]:
+                if a == b:
+                    continue
+                w = dict(NOMINAL)
+                w[a], w[b] = va, vb
+                worlds.append((f"allpairs:{a}={va},{b}={vb}", w, None))
     n_random = 14 if ctx.quick() else 150
     if getattr(ctx, "deep", False):
         n_random *= 3
